@@ -2,6 +2,7 @@ package main
 
 import (
 	"fmt"
+	"go/token"
 	"go/types"
 	"sort"
 	"strings"
@@ -132,7 +133,7 @@ func checkC28(c *Ctx, r *Report) {
 	r.rule("C28.T1", "buildProxyMetadataResponse field table (broker literal, partition and topic copies, pass-through, one entry per source element)", 16)
 	r.rule("C28.T2", "handleFindCoordinator / handleMetadata name the proxy's advertised endpoint with node id 0", 4)
 	r.rule("C28.T3", "no backend broker identity reaches a proxy-built reply; not-ready replies name nobody", 3)
-	r.rule("C28.T4", "loadMetadata's topic-id filter yields one entry per requested id", 2)
+	r.rule("C28.T4", "loadMetadata's topic-id filter yields one entry per requested id; every cluster topic is indexed", 3)
 
 	bp := needFn(m, r, "C28.T1", pkgProxy, "buildProxyMetadataResponse")
 	if bp != nil {
@@ -425,6 +426,52 @@ func checkC28(c *Ctx, r *Report) {
 
 	// ---- T4
 	if lm := needFn(m, r, "C28.T4", pkgProxy, "(*proxy).loadMetadata"); lm != nil {
+		// the id index holds every cluster topic: the map update keyed by TopicID is reached on every
+		// iteration over the cluster's topics (a topic with an error code keeps its name and code when
+		// it is asked for by id); only a zero id may be left out
+		{
+			var mu *ssa.MapUpdate
+			for _, b := range lm.Blocks {
+				for _, in := range b.Instrs {
+					if x, ok := in.(*ssa.MapUpdate); ok {
+						if _, f, _, ok := fieldOf(x.Key); ok && f == "TopicID" {
+							mu = x
+						}
+					}
+				}
+			}
+			key := "every cluster topic is indexed by its id"
+			if mu == nil {
+				r.unresolved("C28.T4", key, "no map update keyed by TopicID in loadMetadata")
+			} else if hdr := innermostRangeHeader(mu); hdr == nil {
+				r.unresolved("C28.T4", key, "the index is not filled in a range loop")
+			} else {
+				body := hdr.Succs[0]
+				found, _, path := search(SearchSpec{Start: Loc{body, 0},
+					Target:  func(t ssa.Instruction) bool { return t.Block() == hdr && t == hdr.Instrs[0] },
+					Blocker: func(t ssa.Instruction) bool { return t == ssa.Instruction(mu) },
+					Removed: func(from *ssa.BasicBlock, succ int) bool {
+						ifi, ok := from.Instrs[len(from.Instrs)-1].(*ssa.If)
+						if !ok {
+							return false
+						}
+						bo, ok := ifi.Cond.(*ssa.BinOp)
+						if !ok {
+							return false
+						}
+						_, fx, _, okx := fieldOf(bo.X)
+						_, fy, _, oky := fieldOf(bo.Y)
+						isID := (okx && fx == "TopicID") || (oky && fy == "TopicID")
+						// the zero-id skip: == on the true edge, != on the false edge
+						return isID && ((bo.Op == token.EQL && succ == 0) || (bo.Op == token.NEQ && succ == 1))
+					}})
+				if found {
+					r.viol("C28.T4", key, m.Pos(mu.Pos()), "a cluster topic can be left out of the id index for a reason other than a zero id: "+renderPath(m, path)+" — asked for by id it is then answered UNKNOWN_TOPIC_ID without its name and error code")
+				} else {
+					r.ok("C28.T4", key, m.Pos(mu.Pos()), "")
+				}
+			}
+		}
 		n := 0
 		for _, b := range lm.Blocks {
 			if b.Comment != "rangeindex.body" {
